@@ -144,12 +144,24 @@ pub mod polling {
     }
     pub const HAVE_CLOCK: bool = cfg!(helgoboss_midi_verif);
 
+    /// harness encoding of timeouts: nanoseconds, with three "effectively infinite" sentinels at the
+    /// top of the range (the mock clock cannot advance beyond u64::MAX ns, so none of them can elapse)
+    pub const T_MAX: u64 = u64::MAX; // Duration::MAX
+    pub const T_HUGE_SECS: u64 = u64::MAX - 1; // Duration::from_secs(u64::MAX)
+    pub const T_2_POW_64_NS: u64 = u64::MAX - 2; // exactly 2^64 ns (one more than fits a u64 of nanoseconds)
+
     pub fn timeout_of(ns: u64) -> Duration {
-        if ns == u64::MAX {
-            Duration::MAX
-        } else {
-            Duration::from_nanos(ns)
+        match ns {
+            T_MAX => Duration::MAX,
+            T_HUGE_SECS => Duration::from_secs(u64::MAX),
+            T_2_POW_64_NS => Duration::new(18_446_744_073, 709_551_616),
+            _ => Duration::from_nanos(ns),
         }
+    }
+
+    /// a timeout that can never elapse on the harness clock
+    pub fn is_infinite(ns: u64) -> bool {
+        ns >= T_2_POW_64_NS
     }
 }
 
@@ -242,7 +254,7 @@ pub fn raw_op_strategy(w: &Weights) -> BoxedStrategy<RawOp> {
         v.push((w.poll, any::<u8>().prop_map(|sel| RawOp::Poll { sel }).boxed()));
     }
     if w.advance > 0 {
-        v.push((w.advance, (0u8..8, any::<u64>()).prop_map(|(which, free)| RawOp::Advance { which, free }).boxed()));
+        v.push((w.advance, (0u8..11, any::<u64>()).prop_map(|(which, free)| RawOp::Advance { which, free }).boxed()));
     }
     proptest::strategy::Union::new_weighted(v).boxed()
 }
@@ -360,7 +372,10 @@ pub fn concretize(kind: Kind, h: &RawHistory, timeout_ns: u64) -> Vec<Op> {
                     continue;
                 }
                 let t = timeout_ns;
-                let d = match which {
+                // (an effectively infinite timeout gives no deadline to aim at)
+                let t = if t >= u64::MAX - 2 { 1_000 } else { t };
+                const TWO_POW_32_S: u64 = 4_294_967_296_000_000_000; // 2^32 s in ns (~136 years)
+                let d = match which % 11 {
                     0 => 0,
                     1 => 1,
                     2 => t.saturating_sub(1),
@@ -368,7 +383,11 @@ pub fn concretize(kind: Kind, h: &RawHistory, timeout_ns: u64) -> Vec<Op> {
                     4 => t.saturating_add(1),
                     5 => t.saturating_mul(2),
                     6 => free % (t.saturating_mul(2).max(2)),
-                    _ => free % 1_000_000_007,
+                    7 => free % 1_000_000_007,
+                    // rarely: jumps across 32-bit boundaries of seconds / milliseconds (compact time stamps)
+                    8 => if free % 8 == 0 { TWO_POW_32_S } else { free % 1_000_000_007 },
+                    9 => if free % 8 == 0 { TWO_POW_32_S - 1 - (free >> 8) % 3 } else { 4_294_967_296_000_000 + free % 3 },
+                    _ => if free % 8 == 0 { TWO_POW_32_S.saturating_add(t) } else { 4_294_967_296 + free % 3 },
                 };
                 // keep the clock far from u64 saturation: a single step is at most ~2^62
                 Op::Advance(d.min(1 << 62))
